@@ -155,6 +155,8 @@ class Ctx:
 # ====================================================================== two-port classes
 
 TP_ENTRY_REPS = ['A', 'B', 'G', 'H', 'S', 'T', 'Y', 'Z']
+SLOW_CLASSES = ('GeneralTransmissionLine', 'GeneralTxLine', 'TL', 'LosslessTransmissionLine', 'LosslessTxLine', 'TLlossless',
+                'TransmissionLine', 'TxLine')
 
 
 def recipes(lcapy):
@@ -221,8 +223,7 @@ def twoport_objects(ctx, quick, rng, only_class=None):
             chk.count('twoport objects', 'class-not-buildable')
             chk.coverage.setdefault('twoport_classes_not_buildable', []).append(n)
     core = ('Ladder', 'LSection', 'TSection', 'PiSection', 'Chain', 'TPB', 'Series', 'Shunt', 'Par2', 'IdealTransformer')
-    slow = ('GeneralTransmissionLine', 'GeneralTxLine', 'TL', 'LosslessTransmissionLine', 'LosslessTxLine', 'TLlossless',
-            'TransmissionLine', 'TxLine')
+    slow = SLOW_CLASSES
     if quick and not only_class:
         rest = [b for b in built if b[0] not in core and b[0] not in slow]
         pick = [b for b in built if b[0] in core] + rng.sample(rest, min(4, len(rest)))
@@ -261,8 +262,12 @@ def twoport_outputs(ctx, info_tp, quick, rng, replay_input=None):
         if is_net:
             todo += [(a, 'doc') for a in sorted(doc_attrs)] + [(a, 'signal') for a in sorted(signal_attrs)] + \
                     [(a, 'recip') for a in sorted(recip_attrs)]
-        if not quick or only_attr:
+        if only_attr:
             ereps = TP_ENTRY_REPS
+        elif not quick:
+            # thorough: every representation on the parameter matrices; three random ones on a network object
+            # (each entry of a network needs a fresh symbolic conversion); none on the transmission lines (10-35 s each)
+            ereps = TP_ENTRY_REPS if not is_net else ([] if cname in SLOW_CLASSES else rng.sample(TP_ENTRY_REPS, 3))
         elif is_net:
             ereps = [rng.choice(['A', 'B', 'G', 'H', 'Y', 'Z'])]
         else:
